@@ -176,6 +176,11 @@ func init() {
 			if g.pct(30) {
 				name = fmt.Sprintf("f%d.dat", i)
 			}
+			if g.pct(15) {
+				// names that contain the staging extensions themselves
+				name = []string{"spare.parts/inv%d.dat", "run.part%d.dat", "x.cmp.d/f%d.part.dat", "w.wait%d"}[g.n(4)]
+				name = fmt.Sprintf(name, i)
+			}
 			switch g.n(7) {
 			case 6: // held file, plus a request for a NEW version of it that died right after the descriptors
 				s0, s1, s2 := sz(), sz(), sz()
